@@ -209,13 +209,15 @@ def shard(shard_i, nshards, payload):
             docs += ["\ufeff" + docs[0], docs[1] + " // é", "PROGRAM p\nVAR x : INT; END_VAR\nx := 1;\n// René"]
             # long and deep (a server thread has less stack than a main thread): a sum of 150-400 terms, 40-110 nested IFs,
             # 100-200 nested parentheses; and long tokens with multi-byte characters at every alignment
-            nterms = rng.choice([150, 200, 300, 400])
+            nterms = rng.choice([150, 200, 300, 400, 600, 1500, 4000, 12000])      # (up to 400 before the stack fix 88d4208)
             docs.append("PROGRAM deep1\nVAR x : INT; END_VAR\nx := " + " + ".join("x" for _ in range(nterms)) + ";\nEND_PROGRAM\n")
             nif = rng.choice([40, 80, 110])
             docs.append("PROGRAM deep2\nVAR x : BOOL; END_VAR\n" + "IF x THEN\n" * nif + "x := TRUE;\n" + "END_IF;\n" * nif + "END_PROGRAM\n")
             npar = rng.choice([100, 150, 200])
             docs.append("PROGRAM deep3\nVAR x : INT; END_VAR\nx := " + "(" * npar + "1" + ")" * npar + ";\nEND_PROGRAM\n")
             docs += [hostile.unicode_case(rng) for _ in range(3)]
+            # flat and long (thousands of statements, branches, labels, values, arguments ... in one construct)
+            docs.append(hostile.flat_case(rng, kind=rng.choice([k for k in range(len(hostile.FLAT_KINDS)) if hostile.FLAT_KINDS[k] != "invalid-characters"])))
             # form feeds (page breaks in printed listings): between declarations, inside a line, inside a comment
             docs += [docs[0].replace("\n\n", "\n\f\n", 2), "PROGRAM p\fVAR x : INT; END_VAR\f\fx := 1; (* a\fb *)\nEND_PROGRAM\f"]
             if payload.get("clean_docs"):
